@@ -216,14 +216,16 @@ fn san(s: &str, initial: bool) -> String {
 
 fn matchers_part(ctx: &Ctx, res: &mut PartResult, max_set: usize) {
     res.engine = "E3 all override sets x names through the real builder + render".into();
-    let pats = ["a", "ab", "b", "a.b", "1a"];
+    let pats = ["a", "ab", "b", "a.b", "1a", "é"];
     let mut all: Vec<(Matcher, usize, u8)> = Vec::new(); // matcher, id, class rank (0 full, 1 prefix, 2 suffix)
     for p in pats {
         all.push((Matcher::Full(p.into()), all.len(), 0));
         all.push((Matcher::Prefix(p.into()), all.len(), 1));
         all.push((Matcher::Suffix(p.into()), all.len(), 2));
     }
-    let names: Vec<String> = vseq::strings(&["a", "b", ".", "1"], 3).into_iter().filter(|s| !s.is_empty()).collect();
+    let mut names: Vec<String> = vseq::strings(&["a", "b", ".", "1"], 3).into_iter().filter(|s| !s.is_empty()).collect();
+    // names with a non-ASCII character at the start, the end and inside
+    names.extend(["é", "aé", "éa", "bé", "aéb", "a.é"].iter().map(|s| s.to_string()));
     let mut sets: Vec<Vec<usize>> = vec![vec![]];
     for a in 0..all.len() {
         sets.push(vec![a]);
@@ -679,7 +681,7 @@ fn main() {
     driver::main(CheckDef {
         prop: "C15",
         level: "model_checking",
-        rule: "histogram: all ascending bound lists of <= 3 bounds over {-1,0,1,2.5,+inf} (+ a list with a repeated bound, a 12-bound list, {-inf,+inf}) x all sample sequences up to the stated length over {-2,-1,0,0.5,1,2.5,3,NaN,+inf,-inf} x all batchings into record()/record_many() calls on the real storage Histogram, and through render() with renders between batches; matchers: all override sets up to the stated size over {Full,Prefix,Suffix} x {a,ab,b,a.b,1a} with/without global buckets x all names of length <= 3 over {a,b,.,1} (distinct bucket lists identify the winning matcher); rolling summary: all non-decreasing sample timelines up to the stated length over {0,1,d-1,d,d+1,W-d,W-1,W,W+1,2W} x all later snapshot times (millisecond resolution), 6 bucket configurations (3x20s, 1x10s, 2x7s and the fractional 2x1.5s, 4x250ms, 3x2.5s), 2 time bases, under quanta's mock clock; distinct = distinct bucket vectors / (type, winner) / quantile triples; quantile configurations: 7 lists incl. NaN, the infinities, values below 0 and above 1 x 3 sample sets through set_quantiles + render(): every quantile line labelled within [0, 1] and valued within [min, max] of the samples",
+        rule: "histogram: all ascending bound lists of <= 3 bounds over {-1,0,1,2.5,+inf} (+ a list with a repeated bound, a 12-bound list, {-inf,+inf}) x all sample sequences up to the stated length over {-2,-1,0,0.5,1,2.5,3,NaN,+inf,-inf} x all batchings into record()/record_many() calls on the real storage Histogram, and through render() with renders between batches; matchers: all override sets up to the stated size over {Full,Prefix,Suffix} x {a,ab,b,a.b,1a,é} with/without global buckets x all names of length <= 3 over {a,b,.,1} plus 6 names containing é (distinct bucket lists identify the winning matcher); rolling summary: all non-decreasing sample timelines up to the stated length over {0,1,d-1,d,d+1,W-d,W-1,W,W+1,2W} x all later snapshot times (millisecond resolution), 6 bucket configurations (3x20s, 1x10s, 2x7s and the fractional 2x1.5s, 4x250ms, 3x2.5s), 2 time bases, under quanta's mock clock; distinct = distinct bucket vectors / (type, winner) / quantile triples; quantile configurations: 7 lists incl. NaN, the infinities, values below 0 and above 1 x 3 sample sets through set_quantiles + render(): every quantile line labelled within [0, 1] and valued within [min, max] of the samples",
         assumptions: &["matcher reference is on the names as the user writes them; cases where only sanitisation makes a matcher apply are left unjudged", "rolling summary oracle is exactly the property: quantiles within [min,max](1±alpha) of samples newer than now-W; empty allowed only when no sample is newer than now-(W-d)"],
         parts,
         run,
